@@ -88,7 +88,7 @@ fn one_step(ctx: &mut Ctx, rng: &mut Rng, pool: &[Live]) -> (String, StepOut) {
         _ => 1,
     };
     let pos = rng.range(-len - 2, len + 2) as i32;
-    let which = rng.below(26);
+    let which = rng.below(28);
     let opname;
     let out = match which {
         0 | 1 => {
@@ -108,7 +108,7 @@ fn one_step(ctx: &mut Ctx, rng: &mut Rng, pool: &[Live]) -> (String, StepOut) {
         }
         4 => {
             opname = "delete_by_keypath";
-            let kp = gen::keypath_for(ta, rng);
+            let kp = if rng.chance(1, 8) { Vec::new() } else { gen::keypath_for(ta, rng) };
             let lp = lib_keypath(&kp);
             let info = || format!("delete_by_keypath({}, {:?})", ta.show(), kp);
             buf_op(ctx, opname, |o| jsonb::delete_by_keypath(a, lp.iter(), o), refops::delete_by_keypath(ta, &kp), &info)
@@ -126,14 +126,14 @@ fn one_step(ctx: &mut Ctx, rng: &mut Rng, pool: &[Live]) -> (String, StepOut) {
         }
         9 => {
             opname = "object_delete";
-            let ks = vec![name_arg.clone(), gen::key(rng)];
+            let ks = if rng.chance(1, 4) { Vec::new() } else { vec![name_arg.clone(), gen::key(rng)] };
             let set: BTreeSet<&str> = ks.iter().map(|s| s.as_str()).collect();
             let info = || format!("object_delete({}, {:?})", ta.show(), ks);
             buf_op(ctx, opname, |o| jsonb::object_delete(a, &set, o), refops::object_delete(ta, &ks), &info)
         }
         10 => {
             opname = "object_pick";
-            let ks = vec![name_arg.clone(), gen::key(rng)];
+            let ks = if rng.chance(1, 4) { Vec::new() } else { vec![name_arg.clone(), gen::key(rng)] };
             let set: BTreeSet<&str> = ks.iter().map(|s| s.as_str()).collect();
             let info = || format!("object_pick({}, {:?})", ta.show(), ks);
             buf_op(ctx, opname, |o| jsonb::object_pick(a, &set, o), refops::object_pick(ta, &ks), &info)
@@ -229,6 +229,19 @@ fn one_step(ctx: &mut Ctx, rng: &mut Rng, pool: &[Live]) -> (String, StepOut) {
             opname = "array_except";
             let info = || format!("array_except({}, {})", ta.show(), tb.show());
             buf_op(ctx, opname, |o| jsonb::array_except(a, b, o), Edit::Ok(refops::inter_except(ta, tb).1), &info)
+        }
+        26 => {
+            // a builder call that is cut short by a part that is not JSONB: its outcome is not
+            // judged here, what matters is that the steps after it are unaffected
+            opname = "hostile(build)";
+            let bad: &[u8] = *rng.pick(&[&b"true"[..], b"\x20", b"", b"\x80\x00", b"\xc0\x00\x00\x01", b"[1]"]);
+            let _ = guard(|| {
+                let mut o = Vec::new();
+                let _ = jsonb::build_array([a.as_slice(), b.as_slice(), bad, a.as_slice()], &mut o);
+                let mut o2 = Vec::new();
+                let _ = jsonb::build_object([("k", a.as_slice()), (name_arg.as_str(), b.as_slice()), ("z", bad)], &mut o2);
+            });
+            StepOut::Nothing
         }
         _ => {
             // path selection in one of the four modes
